@@ -48,7 +48,8 @@ def is_handed_on(value: SSAValue) -> bool:
         user = use.operation
         if user.has_trait(IsTerminator) or isinstance(user, scf.ForOp | scf.WhileOp):
             return True
-        if isinstance(user, memref.CastOp | memref.SubviewOp | memref.MemorySpaceCastOp):
+        if isinstance(user, memref.CastOp | memref.SubviewOp | memref.MemorySpaceCastOp | arith.SelectOp):
+            # (a select of two buffers may be this one)
             if any(is_handed_on(result) for result in user.results):
                 return True
     return False
